@@ -275,6 +275,19 @@ DoPersist ==
   /\ obs' = [a |-> "Persist", err |-> ""]
   /\ UNCHANGED <<streams, groups, grec, lastPub, disk, applied, mode, nrep, pre>>
 
+\* fsmSnapshot.Persist running CONCURRENTLY with Server.apply (Raft calls Persist in its snapshot
+\* goroutine while the FSM goroutine goes on applying): the snapshot is marshalled first (what it holds
+\* is the state at that moment), operation o is applied while the bytes are being written to the sink.
+\* The persisted snapshot must be a well-formed one (size header = payload) whatever o changes.
+DoPersistWith(o) ==
+  /\ mode = "live" /\ sref.has
+  /\ snap' = [has |-> TRUE, idx |-> sref.idx, streams |-> Preview(sref), heads |-> sref.heads, groups |-> sref.groups]
+  /\ LET r == ApplyOp(o, applied + 1, FALSE) IN
+       /\ streams' = r.streams /\ groups' = r.groups /\ grec' = r.grec /\ lastPub' = r.lastPub /\ disk' = r.disk
+       /\ obs' = [a |-> "PersistWith", err |-> r.err]
+  /\ sref' = NoRef /\ applied' = applied + 1
+  /\ UNCHANGED <<mode, nrep, pre>>
+
 \* the process stops and a new Server is created over the same data directory
 DoRestart ==
   /\ mode = "live"
